@@ -159,7 +159,12 @@ def all_configs(reorder=False):
         if reorder and cls not in REORDER_CLASSES:
             continue
         out.append(dict(cls=cls, kw=kw, cache=False))
-        if not kw:
+        if not kw and cls == 'dbox':
+            # DictBoxSortNNPS documents that it cannot be used with the cache
+            # or OpenMP (it needs the GIL) and switches the cache off itself;
+            # filling its caches from several threads is a data race
+            out.append(dict(cls=cls, kw=dict(sort_gids=True), cache=False))
+        elif not kw:
             out.append(dict(cls=cls, kw=kw, cache=True))
             out.append(dict(cls=cls, kw=kw, cache=True, fill=True, threads=4))
             out.append(dict(cls=cls, kw=dict(sort_gids=True), cache=False))
